@@ -699,6 +699,59 @@ def image_from(ctx, rec, loc, geom, crpix, x, y, lines, pending, tag):
     return {'obj': im, 'ra': ra, 'dec': dec, 'case': case, 'n': n}
 
 
+def thin_image_cases(ctx, count):
+    """image catalogs whose sources lie within a fraction of a pixel of a straight line (finding F27, repaired in
+    /repo: the hull of such a catalog is a sliver that spherical_geometry cannot orient; the image catalog then
+    had a degenerate footprint that contained nothing and WCSGroupCatalog / align_wcs raised 'No valid polygons
+    provided').  Required: the catalog and a group built on it can be constructed, the footprint is a usable
+    (orientable) polygon, and when the footprint is the whole image it contains every source."""
+    from astropy.table import Table
+    from tweakwcs.correctors import FITSWCSCorrector
+    from tweakwcs.wcsimage import WCSImageCatalog, WCSGroupCatalog
+    rng = ctx.rng
+    for it in range(count):
+        npr = np.random.default_rng(rng.getrandbits(32))
+        loc = rng.choice(LOCATIONS)
+        scale = rng.choice([1.5e-5, 8e-6, 3e-5, 1e-4])
+        geom = {'rot': rng.uniform(0, 360), 'scale': scale, 'flip': rng.random() < 0.3}
+        scatter = rng.choice([0.0, 1e-9, 1e-6, 1e-3, 0.03, 0.1, 0.3, 1.0])
+        n = rng.choice([3, 4, 5, 6, 9])
+        ang = math.radians(rng.choice([0.0, 90.0, 45.0, rng.uniform(0, 180), rng.uniform(0, 180)]))
+        t = np.sort(npr.uniform(-420, 420, n))
+        x = 512.3 + t * math.cos(ang) + (npr.normal(0, scatter, n) if scatter else 0.0)
+        y = 480.7 + t * math.sin(ang) + (npr.normal(0, scatter, n) if scatter else 0.0)
+        x = np.clip(x, 2.0, 1021.0)
+        y = np.clip(y, 2.0, 1021.0)
+        case = {'op': 'thin-image', 'loc': list(loc), 'geom': geom, 'scatter': scatter, 'x': x.tolist(), 'y': y.tolist()}
+        ctx.case(case, nontrivial=True, branch='thin-image:scatter=%g' % scatter)
+        try:
+            im = WCSImageCatalog(Table([x, y], names=('x', 'y')),
+                                 FITSWCSCorrector(mkwcs(loc[0], loc[1], geom['rot'], scale, (512.0, 512.0),
+                                                        flip=geom['flip'])), name='thin')
+            other = WCSImageCatalog(Table([npr.uniform(100, 900, 7), npr.uniform(100, 900, 7)], names=('x', 'y')),
+                                    FITSWCSCorrector(mkwcs(loc[0], loc[1], geom['rot'], scale, (300.0, 512.0),
+                                                           flip=geom['flip'])), name='other')
+            WCSGroupCatalog(im)
+            g2 = WCSGroupCatalog([im, other])
+            g2._guarded_intersection_area(im)
+            im._guarded_intersection_area(other)
+        except Exception as e:
+            ctx.oracle_fail(case, {'what': 'an image catalog with (almost) collinear sources, or a group containing '
+                                   'it, could not be built or intersected', 'exc': repr(e)[:200]})
+            continue
+        if im.polygon.is_clockwise() is None:
+            ctx.oracle_fail(case, {'what': 'the footprint of an image catalog with (almost) collinear sources is a '
+                                   'degenerate polygon (contains nothing, cannot be combined)'})
+            continue
+        whole = len(im.bb_radec[0]) == len(im.img_bounding_ra) and \
+            np.array_equal(np.asarray(im.bb_radec[0]), np.asarray(im.img_bounding_ra))
+        ctx.branch('thin-image:footprint=%s' % ('whole-image' if whole else 'hull'))
+        if whole:
+            ra, dec = im.det_to_world(x, y)
+            check_polygon_sources(ctx, case, 'image catalog (whole-image footprint)', im.polygon,
+                                  np.asarray(ra, dtype=float), np.asarray(dec, dtype=float))
+
+
 def group_case(ctx, rec, members, policy, lines, pending):
     from tweakwcs.wcsimage import WCSGroupCatalog
     case = {'op': 'group', 'bb_policy': policy, 'members': [m['case'] for m in members]}
@@ -1189,6 +1242,7 @@ def run(ctx):
         hull_case(ctx, fam, pts, sep, kind, lines, pending)
     with Recorder() as rec:
         probes(ctx, rec, lines, pending)
+        thin_image_cases(ctx, ctx.n(40, 600))
         locs = list(LOCATIONS)
         for _ in range(ctx.n(0, 24)):
             locs.append((ctx.rng.choice([0.0, 359.99, 45.0, 135.0, 180.0, 225.0, 315.0, ctx.rng.uniform(0, 360)]),
